@@ -362,6 +362,7 @@ func checkC07(reg *Registry, c fnCase) pbt.Result {
 	}
 	cls := []string{}
 	if it.HasTL2() {
+		fn := fn.(TL2Function)
 		var t2, back2, j2, t2b []byte
 		if e := call("ReadResultTL1WriteResultTL2", func() { rest, t2, err = fn.ReadResultTL1WriteResultTL2(&basictl.TL2WriteContext{}, r1, nil) }); e != nil {
 			return pbt.Fail("%s: %v (result %s)", c.Item, e, hexHead(r1))
@@ -418,7 +419,7 @@ func checkC07(reg *Registry, c fnCase) pbt.Result {
 		}
 		if w2 := method(fv, "WriteResultTL2"); it.HasTL2() && w2.IsValid() && w2.Type().NumIn() == 3 {
 			var t2 []byte
-			_, t2, _ = fn.ReadResultTL1WriteResultTL2(&basictl.TL2WriteContext{}, r1, nil)
+			_, t2, _ = fn.(TL2Function).ReadResultTL1WriteResultTL2(&basictl.TL2WriteContext{}, r1, nil)
 			if e := call("typed WriteResultTL2", func() {
 				out = w2.Call([]reflect.Value{reflect.ValueOf([]byte(nil)), reflect.ValueOf(&basictl.TL2WriteContext{}), ret.Elem()})
 			}); e != nil {
